@@ -252,6 +252,13 @@ def gen_cases(ctx):
     for na, ng in [(0, 0), (1, 0), (0, 1), (499, 1), (500, 0), (501, 0), (0, 500), (0, 501), (500, 500), (1001, 999), (1500, 2), (3, 1500)]:
         add({"kind": "batches", "na": na, "ng": ng})
 
+    # ---- survivingPeersExcept: every short peer list (repeated endpoints included) x every target
+    for k in range(0, 5):
+        for ids in itertools.product([1, 2, 3, 4], repeat=k):
+            if k == 4 and not ctx.thorough and len(set(ids)) < 3:
+                continue
+            for target in ([1, 3, 5] if k >= 3 and not ctx.thorough else [1, 2, 3, 4, 5]):
+                add({"kind": "survivors", "peer_ids": list(ids), "target": target})
     # ---- reassignByRole
     small_sets = [[], [1], [2], [1, 2]]
     cnt = 0
@@ -366,6 +373,12 @@ def oracle(ctx, c, o, counters):
         sizes = [len(a or []) + len(g or []) for a, g in zip(ra, rg)]
         if fa != list(range(c["na"])) or fg != list(range(c["ng"])) or any(not (1 <= z <= 500) for z in sizes) or any(d != "dep:1" for d in (o["dep"] or [])):
             viol("buildRelocateBatchRequests:partition", "buildRelocateBatchRequests(%d actors, %d grains): batch sizes %s" % (c["na"], c["ng"], sizes[:10]))
+    elif kind == "survivors":
+        want = [p for p in c["peer_ids"] if p != c["target"]]
+        if (o["leader"] or []) != want:
+            viol("survivingPeersExcept:result", "survivingPeersExcept(%s, %d) = %s, expected %s" % (c["peer_ids"], c["target"], o["leader"], want))
+        elif (o["after"] or []) != c["peer_ids"]:
+            viol("survivingPeersExcept:mutates-input", "survivingPeersExcept(%s, %d) rewrote the caller's peer list to %s (relocate shares that list between the share goroutines, so the next failed share computes its survivors from it)" % (c["peer_ids"], c["target"], o["after"]))
     elif kind == "reassign":
         sroles = c["peers"]
         acts = [a for r in c["requests"] for a in r["actors"]]
@@ -422,7 +435,8 @@ Inductive kase :=
 | KRel (n : N) (gs : list wgrain) (e : list N)
 | KChunk (n : N) (count : N) (size : Z) (e : list N)
 | KBatches (n : N) (na ng : N) (ea eg : list N)
-| KReassign (n : N) (reqs : list request) (sr : list (list nat)) (lr : list nat) (es : list (list N)) (el eg ef : list N).
+| KReassign (n : N) (reqs : list request) (sr : list (list nat)) (lr : list nat) (es : list (list N)) (el eg ef : list N)
+| KSurv (n : N) (peers : list N) (target : N) (e : list N).
 Definition nk : list kase := []. Definition ck (x : kase) (l : list kase) := x :: l.
 Fixpoint leqb {T} (e : T -> T -> bool) (x y : list T) : bool :=
   match x, y with [], [] => true | a :: x', b :: y' => e a b && leqb e x' y' | _, _ => false end.
@@ -433,7 +447,7 @@ Definition gids := map gid.
 Definition nseq (k : N) : list N := map N.of_nat (seq 0 (N.to_nat k)).
 Definition lenN {T} (l : list T) : N := N.of_nat (length l).
 Definition num (k : kase) : N :=
-  match k with KAlloc n _ _ _ _ _ _ _ | KGrains n _ _ _ _ | KRel n _ _ | KChunk n _ _ _ | KBatches n _ _ _ _ | KReassign n _ _ _ _ _ _ _ => n end.
+  match k with KAlloc n _ _ _ _ _ _ _ | KGrains n _ _ _ _ | KRel n _ _ | KChunk n _ _ _ | KBatches n _ _ _ _ | KReassign n _ _ _ _ _ _ _ | KSurv n _ _ _ => n end.
 Definition chk (k : kase) : bool :=
   match k with
   | KAlloc _ lr pr acts loads el es eu =>
@@ -448,6 +462,7 @@ Definition chk (k : kase) : bool :=
   | KReassign _ reqs sr lr es el eg ef =>
       match reassignByRole reqs sr lr with (s, l, g, f) =>
         lln (map aids s) es && ln (aids l) el && ln (gids g) eg && ln (aids f) ef end
+  | KSurv _ peers target e => ln (survivingPeersExcept peers target) e
   end.
 Definition bad (l : list kase) : list N := map num (filter (fun c => negb (chk c)) l).
 """
@@ -484,6 +499,8 @@ def coq_compare(ctx, cases, outs, orders):
             ks.append("(KChunk %d %d %d %s)" % (c["n"], c["count"], c["size"], cN([len(s) for s in (o["shares"] or [])])))
         elif k == "batches":
             ks.append("(KBatches %d %d %d %s %s)" % (c["n"], c["na"], c["ng"], cN([len(a or []) for a in (o["req_a"] or [])]), cN([len(g or []) for g in (o["req_g"] or [])])))
+        elif k == "survivors":
+            ks.append("(KSurv %d %s %d %s)" % (c["n"], cN(c["peer_ids"]), c["target"], cN(o["leader"] or [])))
         elif k == "reassign":
             reqs = nest(("(Q %s %s)" % (cA(r["actors"]), cG(r["grains"])) for r in c["requests"]), "cq", "nq")
             ks.append("(KReassign %d %s %s %s %s %s %s %s)" % (
@@ -534,7 +551,7 @@ def run(ctx):
     outp = os.path.join(ctx.work, "c32_out.jsonl")
     if os.path.exists(outp):
         os.remove(outp)
-    rc, gout = ctx.go_test("actor", "^TestVerifC32", ["zz_verif_C32_test.go"], timeout=600 if ctx.thorough else 400)
+    rc, gout = ctx.go_test("actor", "^TestVerifC32", ["zz_verif_C32_test.go"], timeout=1200)
     outs = {o["n"]: o for o in read_jsonl(outp)}
     if rc != 0 or len(outs) != len(cases):
         ctx.tie_broken("go-harness actor relocation planning functions", gout)
@@ -566,7 +583,7 @@ def run(ctx):
         nontrivial = (c["kind"] == "alloc" and len(c["actors"]) >= 2 and len(c["peers"]) >= 1) or \
                      (c["kind"] == "grains" and c["count"] >= 1) or \
                      (c["kind"] == "reassign" and sum(len(r["actors"]) for r in c["requests"]) >= 2) or \
-                     (c["kind"] in ("chunk", "batches", "relgrains"))
+                     (c["kind"] in ("chunk", "batches", "relgrains", "survivors"))
         if nontrivial:
             distinct.add(canon_hash({k: v for k, v in c.items() if k != "n"}))
 
@@ -604,7 +621,7 @@ def run(ctx):
         "theorems": ["C32_actors_partition", "C32_assigned_target_advertises_role", "C32_unplaceable_iff_no_target", "C32_singletons_to_leader",
                      "C32_least_loaded", "C32_relocatable_grains", "C32_grains_exactly_once", "C32_chunkify", "C32_plan_actors_exactly_once",
                      "C32_plan_grains_exactly_once", "C32_plan_targets_exist", "C32_plan_peer_roles", "C32_plan_batches_bounded",
-                     "C32_reassign_partition", "C32_reassign_roles", "C32_reassign_least_loaded", "C32_spread_exactly_once", "C32_grain_arithmetic_from_source"],
+                     "C32_reassign_partition", "C32_reassign_roles", "C32_reassign_least_loaded", "C32_spread_exactly_once", "C32_grain_arithmetic_from_source", "C32_survivors"],
     })
 
 
